@@ -231,13 +231,40 @@ void shape_case(const tensor_dims_t<trank>& dims, vt::Rng& rng, bool exhaustive)
             }
         }
     }
-    // gather along the first axis (random index lists with repetitions)
-    if (n0 > 0)
+    // gather along the first axis: random index lists with repetitions, and the structured ones an implementation may special-case
+    // (sorted with repetitions, contiguous ranges, reversed ranges, a single repeated index)
+    for (int pattern = 0; pattern < 4 && n0 > 0; ++pattern)
     {
-        indices_t indices(rng.range(0, 6));
+        indices_t indices(rng.range(pattern == 0 ? 0 : 1, 6));
         for (auto& i : indices)
         {
             i = rng.range(0, n0 - 1);
+        }
+        if (pattern == 1)
+        {
+            std::sort(indices.begin(), indices.end());
+        }
+        else if (pattern == 2)
+        {
+            const auto first = rng.range(0, n0 - 1);
+            for (tensor_size_t k = 0; k < indices.size(); ++k)
+            {
+                indices(k) = std::min<tensor_size_t>(n0 - 1, first + k);
+            }
+            if (rng.coin())
+            {
+                std::reverse(indices.begin(), indices.end());
+            }
+        }
+        else if (pattern == 3)
+        {
+            // sorted, with repetitions, spanning exactly as many rows as it has entries (e.g. 0, 0, 2)
+            std::sort(indices.begin(), indices.end());
+            if (indices.size() >= 2)
+            {
+                indices(indices.size() - 1) = std::min<tensor_size_t>(n0 - 1, indices(0) + indices.size() - 1);
+                std::sort(indices.begin(), indices.end());
+            }
         }
         const auto           sub = croot.indexed(indices);
         std::vector<int64_t> elems;
